@@ -36,8 +36,13 @@ Fixpoint index1 (x : N) (l : list N) : option N :=    (* 1-based position of the
 (* what the code does today: the claims are converted against the current content and the tracker is
    handed the current content as the previous one, so it sees no change: line i of the file is the
    session's iff i is a claimed number that exists *)
+(* line_attributions_to_attributions keeps a claim only when BOTH its first and its last line exist in the
+   content it is converted against: a claim reaching past the end of the file is dropped as a whole *)
+Definition fits (n : N) (c : claim) : bool :=
+  match c with (a, b, _) => (1 <=? a) && (a <=? n) && (1 <=? b) && (b <=? n) end.
+
 Definition positional (cl : list claim) (current : list N) (i : N) : option N :=
-  if (1 <=? i) && (i <=? len current) then covered cl i else None.
+  if (1 <=? i) && (i <=? len current) then covered (filter (fits (len current)) cl) i else None.
 
 (* the specification: a claim belongs to the LINE it was written for *)
 Definition by_content (cl : list claim) (snapshot current : list N) (i : N) : option N :=
